@@ -157,6 +157,14 @@ class C09(Prop):
         rxp, ch255 = ll.gen_desc(rng, 255)
         yield ll.mk_line("nx", 3, [0] * 254 + [1], [0] * 255, 1, rxp, ch255, ["C", "e3!", "S", "s-255", "X", "C", "X"]), "255-channels"
         yield ll.mk_line("comm", 3, [0] * 254 + [1], [0] * 255, 1, 0, ll.plain_chans(255), ["C", "e-255,254", "C", "W", "X"]), "255-channels"
+        # many sessions on ONE handler object: whatever a connect uses up must be there again for the next one
+        for mode in ("nx", "comm"):
+            for k in ((8, 13) if T else (8,)):
+                for mid in ([], ["S", "T"], ["e0", "W"], ["C"]):
+                    calls = []
+                    for _ in range(k):
+                        calls += ["C"] + mid + ["X"]
+                    yield ll.mk_line(mode, 3, [0, 1, 0], [0, 5, 0], 0, 0, P3, calls), "many-sessions"
         # random histories
         for it in range(900 if T else 170):
             n = rng.choice([1, 2, 3, 5, 3, 2, 8, 16]) if it % 25 else rng.choice([64, 0, 255 if T else 64])
